@@ -9,28 +9,49 @@
 (*   TRANSIENT_FAILURE -> IDLE (after backoff); any -> SHUTDOWN; nothing   *)
 (*   leaves SHUTDOWN.  (CONNECTING -> IDLE: transport created but lost     *)
 (*   before READY was reported, soundness rule R2.)                        *)
+(* SubConn.UpdateAddresses(list) (addrConn.updateAddrs): an equal list is  *)
+(* ignored; in IDLE, TRANSIENT_FAILURE (the backoff keeps running) and     *)
+(* SHUTDOWN the list is only stored; in CONNECTING the attempt is          *)
+(* restarted with the new list (the state stays CONNECTING); in READY the  *)
+(* connection is kept if its address is still in the list, otherwise the   *)
+(* transport is closed and a new attempt starts at once: READY ->          *)
+(* CONNECTING.  (The property text constrains how READY is reached and how *)
+(* TRANSIENT_FAILURE and SHUTDOWN are left; it does not forbid this edge,  *)
+(* rule R2.)                                                               *)
 (***************************************************************************)
 EXTENDS Integers, Sequences
-CONSTANTS NS, MaxEv, AllowConnLost, Mutant
-VARIABLES st, happened, queue, seen, chClosed, nev
-cvars == <<st, happened, queue, seen, chClosed, nev>>
+CONSTANTS NS, MaxEv, MaxUA, AllowConnLost, Mutant
+VARIABLES st, happened, queue, seen, chClosed, nev, nua
+cvars == <<st, happened, queue, seen, chClosed, nev, nua>>
 SCs == 1..NS
 States == {"IDLE", "CONNECTING", "READY", "TRANSIENT_FAILURE", "SHUTDOWN"}
 
 Allowed(a, b) ==
   \/ a = "IDLE" /\ b \in {"CONNECTING", "SHUTDOWN"}
   \/ a = "CONNECTING" /\ b \in {"READY", "TRANSIENT_FAILURE", "IDLE", "SHUTDOWN"}
-  \/ a = "READY" /\ b \in {"IDLE", "SHUTDOWN"}
+  \/ a = "READY" /\ b \in {"IDLE", "CONNECTING", "SHUTDOWN"}
   \/ a = "TRANSIENT_FAILURE" /\ b \in {"IDLE", "SHUTDOWN"}
 
 CInit == /\ st = [sc \in SCs |-> "IDLE"] /\ happened = [sc \in SCs |-> <<>>] /\ queue = <<>>
-         /\ seen = [sc \in SCs |-> <<>>] /\ chClosed = FALSE /\ nev = 0
+         /\ seen = [sc \in SCs |-> <<>>] /\ chClosed = FALSE /\ nev = 0 /\ nua = 0
 
 \* updateConnectivityState under ac.mu: set, then schedule the listener call on the serializer
 Change(sc, s) == /\ nev < MaxEv /\ nev' = nev + 1
                  /\ st' = [st EXCEPT ![sc] = s] /\ happened' = [happened EXCEPT ![sc] = Append(@, s)]
                  /\ queue' = IF chClosed THEN queue ELSE Append(queue, <<sc, s>>)
-                 /\ UNCHANGED <<seen, chClosed>>
+                 /\ UNCHANGED <<seen, chClosed, nua>>
+
+\* SubConn.UpdateAddresses; kind: "same" (equal list), "new" (disjoint list), "keep" (the current address plus another)
+UpdAddrs(sc, kind) ==
+  /\ ~chClosed /\ nua < MaxUA /\ nua' = nua + 1
+  /\ IF st[sc] = "READY" /\ (kind = "new" \/ Mutant = 2)
+       THEN /\ st' = [st EXCEPT ![sc] = "CONNECTING"] /\ happened' = [happened EXCEPT ![sc] = Append(@, "CONNECTING")]
+            /\ queue' = Append(queue, <<sc, "CONNECTING">>)
+       ELSE IF st[sc] = "TRANSIENT_FAILURE" /\ kind # "same" /\ Mutant = 3      \* negative control: backoff abandoned
+       THEN /\ st' = [st EXCEPT ![sc] = "CONNECTING"] /\ happened' = [happened EXCEPT ![sc] = Append(@, "CONNECTING")]
+            /\ queue' = Append(queue, <<sc, "CONNECTING">>)
+       ELSE UNCHANGED <<st, happened, queue>>
+  /\ UNCHANGED <<seen, chClosed, nev>>
 
 Connect(sc)     == st[sc] = "IDLE" /\ ~chClosed /\ Change(sc, "CONNECTING")
 DialOk(sc)      == st[sc] = "CONNECTING" /\ Change(sc, "READY")
@@ -44,14 +65,14 @@ ScShutdown(sc)  == st[sc] # "SHUTDOWN" /\ ~chClosed /\ Change(sc, "SHUTDOWN")
 ChanClose == /\ ~chClosed /\ nev < MaxEv /\ nev' = nev + 1 /\ chClosed' = TRUE /\ queue' = <<>>
              /\ st' = [sc \in SCs |-> "SHUTDOWN"]
              /\ happened' = [sc \in SCs |-> IF st[sc] = "SHUTDOWN" THEN happened[sc] ELSE Append(happened[sc], "SHUTDOWN")]
-             /\ UNCHANGED seen
+             /\ UNCHANGED <<seen, nua>>
 
 \* the serializer runs the oldest scheduled callback
 Deliver == /\ queue # <<>>
            /\ LET k == IF Mutant = 1 THEN Len(queue) ELSE 1  e == queue[k] IN
               /\ seen' = [seen EXCEPT ![e[1]] = Append(@, e[2])]
               /\ queue' = [i \in 1..(Len(queue) - 1) |-> IF i < k THEN queue[i] ELSE queue[i + 1]]
-           /\ UNCHANGED <<st, happened, chClosed, nev>>
+           /\ UNCHANGED <<st, happened, chClosed, nev, nua>>
 
 ----
 IsPrefix(a, b) == Len(a) <= Len(b) /\ \A i \in 1..Len(a) : a[i] = b[i]
